@@ -1183,9 +1183,9 @@ func wrapAny(val Node, targetType *Type) Node {
 		panic(fmt.Sprintf("internal error: untyped map: %s incompatible types: target %v, value %v", val.Token().Location(), targetType, valType))
 	}
 
-	if targetType.Name == ARRAY && valType.Name == ARRAY {
-		// array concatenation or grouping of literals that still contain
-		// untyped empty arrays, e.g. [[]] + [[1]]
+	if targetType.Name == valType.Name && (valType.Name == ARRAY || valType.Name == MAP) {
+		// concatenation, grouping, slicing or indexing of literals that still
+		// contain untyped empty arrays or maps, e.g. [[]] + [[1]], [{a:[]}][0]
 		switch v := val.(type) {
 		case *BinaryExpression:
 			v.Left = wrapAny(v.Left, targetType)
@@ -1201,7 +1201,7 @@ func wrapAny(val Node, targetType *Type) Node {
 			v.Left = wrapAny(v.Left, targetType)
 			v.T = targetType
 			return v
-		case *IndexExpression: // [[[]]][0]
+		case *IndexExpression: // [[[]]][0], [{a:[]}][0]
 			if v.Left.Type().Name == ARRAY {
 				v.Left = wrapAny(v.Left, &Type{Name: ARRAY, Sub: targetType})
 				v.T = targetType
